@@ -140,6 +140,8 @@ type Spec struct {
 	GasTxByte       uint64    `json:"gas_tx_byte"`
 	GasOp           uint64    `json:"gas_op"`
 	MaxBlockGas     uint64    `json:"max_block_gas"`
+	// ConsMinGasPrice is the consensus-wide minimum gas price (0 = none), enforced in block execution.
+	ConsMinGasPrice uint64 `json:"cons_min_gas_price"`
 	MaxTxSize       uint64    `json:"max_tx_size"`
 	GovVotingPeriod uint64    `json:"gov_voting_period"`
 	GovStakeThresh  uint8     `json:"gov_stake_threshold"`
@@ -321,6 +323,7 @@ func BuildGenesis(spec *Spec) (*World, error) {
 			MaxTxSize:         spec.MaxTxSize,
 			MaxBlockSize:      1 << 21,
 			MaxBlockGas:       transaction.Gas(spec.MaxBlockGas),
+			MinGasPrice:       spec.ConsMinGasPrice,
 			MaxEvidenceSize:   1 << 16,
 			GasCosts: transaction.Costs{
 				consensusGenesis.GasOpTxByte: transaction.Gas(spec.GasTxByte),
